@@ -111,9 +111,16 @@ pub fn check_recovery(scratch: &mut Sut, snap: &[u8], model: &Model, held: &[Blo
     if !leaked.is_empty() {
         let first = leaked[0];
         let n = leaked.len();
+        let all = leaked.clone();
         if !cover(&mut leaked, &tol.gets) {
+            // signature of one specific, listed finding: whole bitfield rows of the huge frame that an
+            // in-flight partial free is (re)filling for a split
+            let rows_of_split = all.len() % 64 == 0
+                && all.chunks(64).all(|c| c[0] % 64 == 0 && c[63] == c[0] + 63)
+                && all.iter().all(|f| tol.puts.iter().any(|p| p.order < llfree::HUGE_ORDER && p.frame / llfree::HUGE_FRAMES == f / llfree::HUGE_FRAMES));
             out.push(format!(
-                "{n} free frame(s) untouched by any in-flight call are allocated after recovery (first: {first}; in-flight get orders {:?})",
+                "{}{n} free frame(s) untouched by any in-flight call are allocated after recovery (first: {first}; in-flight get orders {:?})",
+                if rows_of_split { "[whole rows in the huge frame of an in-flight partial free] " } else { "" },
                 tol.gets
             ));
         }
